@@ -1871,6 +1871,20 @@ fn sub_c06_continued(input: &[u8], st: &mut Stats) -> R {
     roundtrip(it, st)
 }
 
+/// complete histories on a Builder continued from an empty module whose bound lies 0-40 below
+/// 2^16, 2^17, 2^22 or 2^24: the ids of the history straddle the power of two (an int or float type,
+/// a typed value, a label gets exactly that id)
+fn sub_c06_straddle(input: &[u8], st: &mut Stats) -> R {
+    let mut cs = Cs::new(input);
+    let t = [1u32 << 16, 1 << 16, 1 << 17, 1 << 22, 1 << 24][cs.below(5)];
+    let start = t - cs.below(41) as u32;
+    let mut it = Interp::from_bound(start)?;
+    it.model.header = Some(dr::ModuleHeader::new(start));
+    complete_history(&mut cs, &mut it, st, None)?;
+    st.count(&format!("histories_straddling_{:#x}", t));
+    roundtrip(it, st)
+}
+
 /// every instruction-emitting method in a minimal complete history, distinct ids
 fn sub_c06_method_sweep(input: &[u8], st: &mut Stats) -> R {
     let i = idx(input) as usize;
@@ -1922,6 +1936,7 @@ pub const C06_SUBS: &[Sub] = &[
     Sub { name: "histories", f: sub_c06_histories },
     Sub { name: "parked-histories", f: sub_c06_parked },
     Sub { name: "continued-histories", f: sub_c06_continued },
+    Sub { name: "straddling-histories", f: sub_c06_straddle },
 ];
 
 pub fn c06_run(ctx: &Ctx) {
@@ -1943,6 +1958,7 @@ pub fn c06_run(ctx: &Ctx) {
     drive_random(ctx, &C06_SUBS[2], ctx.n(20_000, 10_000_000), 2500);
     drive_random(ctx, &C06_SUBS[3], ctx.n(8_000, 4_000_000), 2500);
     drive_random(ctx, &C06_SUBS[4], ctx.n(4_000, 2_000_000), 4000);
+    drive_random(ctx, &C06_SUBS[5], ctx.n(20_000, 6_000_000), 2500);
     if !ctx.quick() && !ctx.failed() {
         crate::fuzzing::drive_fuzz(ctx, "builder", 200000);
     }
